@@ -341,9 +341,15 @@ func run(r *report.Run, shard, nshards int, replayFile string) {
 		e.al = j.al
 		res := explore.Run(r, spec)
 		if shard == 0 {
-			r.Extra["depth_completed/"+spec.Name] = float64(res.DepthCompleted)
 			r.Extra["depth_bound/"+spec.Name] = float64(spec.MaxDepth)
 		}
+		// summed over the worker processes: equals worker_processes when every shard finished the
+		// bound (otherwise caps_hit names the depth whose frontier was being expanded at the deadline)
+		done := 0.0
+		if !res.Capped {
+			done = 1.0
+		}
+		r.Extra["workers_completed_bound/"+spec.Name] = done
 	}
 	for k, v := range e.cnt {
 		r.Extra[k] = v
